@@ -15,17 +15,17 @@ SPEC = dict(
                None)],
     extra_driver_files=['startup'],      # the fake-fan environment lives in drv_startup.go
     drivers=[dict(name='parinit', drv_mod='Drv.ParInit', drv_file='Drv/ParInit.v', shard=40,
-                  args={'quick': ['n=24'], 'thorough': ['n=300']}, timeout={'quick': 600, 'thorough': 3000})],
+                  args={'quick': ['n=24'], 'thorough': ['n=240']}, timeout={'quick': 600, 'thorough': 3000})],
     rule='2..4 real DefaultFanController.Run started concurrently (one goroutine each, one shared bbolt file) on fake fans that all need '
          'analysis (hwmon: sweep + RPM measurement; some with only the RPM curve missing; some file fans sweeping inside Run), quantising '
          'devices with 4..8 levels, settle times 0/1.5/3/6 s, start delays 0..4 s (configured times scaled 1/200 in real time), '
-         'runFanInitializationInParallel false in two thirds of the cases. Observed per fan: the classified start-up actions and the interval '
-         '[first PWM/mode write or RPM read, last device access or map/data save] before its first regulation cycle, in the order of a global '
+         'runFanInitializationInParallel false in two thirds of the cases. Every second sequential case is special: (1) the analysis of the first fan FAILS midway (injected PWM write error in the measurement loop, or RPM read error at the third level) while 2..3 others are queued; (2) an already analysed fan fails in its control loop right after start (curve error -> restorePwmEnabled) while the next fan is analysed and others wait; (3) one slow-settling fan (30..60 s) with fanResponseDelay 0 or 1. Timers created by controller.go (time.After/NewTimer/AfterFunc) run on the same scaled time base as its sleeps. Observed per fan: the classified start-up actions and the interval '
+         '[first PWM/mode write or RPM read, last device access or map/data save] before its first regulation cycle -- for a controller whose Run returned without regulating: up to the END of the run, i.e. including accesses by goroutines that outlive RunInitializationSequence; accesses made inside restorePwmEnabled (bracketed by build-time markers) are not analysis -- in the order of a global '
          'sequence-numbered log. Non-trivial = at least two fans analysed; distinct = distinct case terms.',
     assumptions=['sync.Mutex provides mutual exclusion and Lock/Unlock order the log entries made inside the critical sections (Go memory model)',
                  'a thread program is the projection of the start-up model\'s action list: Lock/Unlock = where the code takes/releases '
                  'InitializationSequenceMutex, Sweep/MeasureRpm = analysis phases (agreement of the action lists with the code is observed by drivers startup and parinit)',
-                 'device_answers / db_answers as for C15'],
+                 'device_answers / db_answers as for C15; fans with an injected device fault (c_faulty) are outside it: their action lists are not compared with the model, their analysis intervals are judged like all others'],
     trusted_base=['C16 theorems are axiom-free (Print Assumptions: closed under the global context)',
                   'hand-written models Model/Startup.v (where the mutex is held relative to sweep and measurement) and Model/Sched.v '
                   '(interleaving semantics: atomic steps, Acquire blocks while the lock is held)',
